@@ -367,6 +367,7 @@ def decide_task(unit, task, scratch, tag, tier, want_trace=True):
     if not props:
         raise Undecided('task %s generated zero obligations' % tag)
     names = [p['name'] for p in props]
+    nameset = set(names)
     status = {}
     solver_of = {}
     secs = {}
@@ -374,9 +375,16 @@ def decide_task(unit, task, scratch, tag, tier, want_trace=True):
     fp = task.get('fp', False)
     pool = cf.ThreadPoolExecutor(max_workers=NCPU)
 
+    extra = {}
+
     def merge(res, solver, dt):
         for r in res:
             n = r['property']
+            if n not in nameset and n not in extra:
+                # obligations generated during symbolic execution (unwinding assertions): not listed beforehand
+                loc = r.get('sourceLocation', {})
+                extra[n] = {'name': n, 'description': r.get('description', ''), 'class': '',
+                            'file': loc.get('file', ''), 'line': loc.get('line', '')}
             st = r['status']
             if st in ('SUCCESS', 'FAILURE') and status.get(n) not in ('SUCCESS', 'FAILURE'):
                 status[n] = st
@@ -414,10 +422,10 @@ def decide_task(unit, task, scratch, tag, tier, want_trace=True):
             j = futs[f]
             res, msg, dt = f.result()
             if res is not None:
-                merge([r for r in res if r['property'] in j[0]], j[1], dt)
+                merge([r for r in res if r['property'] in j[0] or r['property'] not in nameset], j[1], dt)
     pool.shutdown(wait=True)
     obl = []
-    for p in props:
+    for p in props + list(extra.values()):
         n = p['name']
         st = status.get(n, 'UNDECIDED')
         if st not in ('SUCCESS', 'FAILURE'):
